@@ -160,7 +160,10 @@ def run_case(case, res):
         ctx = {"cfg": cfg, "function": fname, "M": M, "k": k, "points_U": pts_u}
         for variant in ("continue", "restore"):
             ca, ea = build(strategy, cfg, fac())
-            ra = quiet(ca.performSpatiallyAdaptiv, errorOperator=ea, max_evaluations=pts_u[k] - 1, **args)
+            rev = rng.random() < 0.3     # the interrupted leg asks for the final re-evaluation from scratch
+            if rev:
+                res.count("interrupted_leg_with_reevaluate_at_end")
+            ra = quiet(ca.performSpatiallyAdaptiv, errorOperator=ea, max_evaluations=pts_u[k] - 1, reevaluate_at_end=rev, **args)
             stopped_at = len(ra[6]) - 1
             res.check("interruption_point", stopped_at == k, "C14_harness_interruption_point",
                       "harness: twin stopped at evaluation %d instead of %d" % (stopped_at, k), ctx)
@@ -189,7 +192,9 @@ def run_case(case, res):
             rc = quiet(obj.continue_adaptive_refinement, tol=-1.0, max_evaluations=M)
             sc = state(strategy, obj)
             pre = "restored_continue" if variant == "restore" else "continue"
-            suffix = ":" + strategy
+            suffix = ":" + strategy + (":first_leg_reevaluate_at_end" if rev else "")
+            if rev and strategy == "extsplit" and cfg.get("version", 0) in (1, 2):
+                suffix += ":version12"
             res.check(pre + "_structure", sc[0] == su[0], "C14_%s_structure_differs%s" % (pre, suffix),
                       "%s from evaluation %d: final refinement structure differs from the uninterrupted run" % (variant, k), ctx)
             res.check(pre.replace("restored_continue", "restored_continue") + "_scheme" if variant == "continue" else "restored_continue_scheme",
